@@ -7,6 +7,27 @@ VERIF = Path(__file__).resolve().parent.parent
 
 # id -> (implemented, category, technique, level text, level note, design ref)
 P = {
+    'C06': (True, 'exploration',
+            'typed deep-equality monitor across run / computing chain / fresh chain / fresh interpreter + stored-file hash monitor',
+            'One real task per generated value of every storable data class in the statement; the value run returned, the value the computing chain '
+            'returned, the value a fresh chain loads and the value a fresh interpreter loads are compared in typed canonical form (bool!=int, float bits, '
+            'dtype/shape/bytes, index/column types, order); file hashes before/after loading. ~4 800 values quick.',
+            'Domain as in the statement (evidence assumptions list what is excluded); pandas/numpy equality via a canonical form written for this check.',
+            'DESIGN.md §3 C06'),
+    'C14': (True, 'exploration',
+            'dictionary reference model with unique values checked online against real cache objects, damage operations on the real cache files',
+            'Random sequences of get/get_or_compute/force/raising computers/sub-cache accesses and file damage (every truncation class, empty, garbage, '
+            'well-formed-but-wrong JSON, delete, foreign-key swap) on JsonCache (both allow_nones), DataFrameCache, NumpyArrayCache, InMemoryCache and '
+            'nested sub-caches; each return value and computer-call count is compared with a dictionary model; final sweep over all entries.',
+            'A damaged file that still loads to exactly the stored value is treated as intact; exception type of the foreign-key report is not checked.',
+            'DESIGN.md §3 C14'),
+    'C16': (True, 'exploration',
+            'python binding model (inspect.Signature.bind + apply_defaults) vs executions/entries of generated cached methods',
+            'Generated classes with cached methods over positional, defaulted and keyword-only parameters, ignored kwargs, versions, bare/called decorator; '
+            'call sequences with random spellings of bindings and the three control keywords on InMemoryCache and JsonCache; oracle = dictionary keyed by '
+            'the canonical binding; execution counts, returned values, arguments the method really received and entry counts per method/version.',
+            'Positional-only/variadic parameters, custom key functions and shared external cache objects are out of scope.',
+            'DESIGN.md §3 C16'),
     'C10': (True, 'exploration',
             'structural reference resolver (with explicit don\'t-care zone) vs the real resolver; all permutations; real Chain/InputTasks access',
             'The real _find_task_full_name, Chain[...], `in`, attribute access and task.input_tasks[...] are run on generated name sets '
